@@ -570,10 +570,32 @@ def rule_cgrec(repo, tier):
     # convergence test
     tests = []
     for n in ast.walk(loop):
-        if isinstance(n, ast.If) and any(isinstance(x, ast.Return) for st in n.body for x in ast.walk(st)):
+        if isinstance(n, ast.If) and any(isinstance(x, (ast.Return, ast.Break)) for st in n.body for x in ast.walk(st)):
             tests.append(n)
     if not tests:
         raise AnalysisError('C10.CGREC: no convergence exit in the CG loop')
+    # the residual is tested BEFORE the step is formed from it: rho = r^T z and alpha = rho / (p^T A p) are 0 / 0 for a residual that is already zero
+    # (b != 0 with an exact initial guess), so an exit placed after the update returns NaN where the guess should be returned
+    divs = [n for n in ast.walk(loop) if isinstance(n, ast.BinOp) and isinstance(n.op, ast.Div)]
+    if divs:
+        first_div = min(d.lineno for d in divs)
+        first_test = min(t.lineno for t in tests)
+        okpos = first_test < first_div
+        res.inst({'function': f.fq, 'clause': 'residual tested before the step length is formed', 'ok': okpos}, 'testpos')
+        if not okpos:
+            res.add(Finding('C10.CGREC', f, 'the convergence test (line %d) comes after the first division of the iteration (line %d): with an initial guess whose residual is '
+                            'already zero the step length is 0 / 0 and NaN is returned instead of the guess' % (first_test, first_div), node=tests[0],
+                            construct='convergence test after the step'))
+    # the threshold is the CONFIGURED tolerance times |b|: no floor / cap / constant between self.tol and the comparison
+    thr = [n for n in f.node.body if isinstance(n, ast.Assign) and any(dotted(x) == 'self.tol' for x in ast.walk(n.value))]
+    for n in thr:
+        wrapped = [c for c in ast.walk(n.value) if isinstance(c, ast.Call) and (dotted(c.func) or '').split('.')[-1] in ('max', 'min', 'clamp', 'clip', 'maximum', 'minimum')
+                   and any(dotted(x) == 'self.tol' for x in ast.walk(c))]
+        res.inst({'function': f.fq, 'clause': 'threshold = self.tol * |b| without a hard-coded floor', 'statement': src(n)[:50], 'ok': not wrapped}, ('thr', src(n)[:50]))
+        if wrapped:
+            res.add(Finding('C10.CGREC', f, '`%s`: the configured tolerance passes through `%s` before it reaches the stopping rule: a tolerance beyond the hard-coded bound '
+                            'is silently replaced, and |b - A x| <= tol |b| no longer holds for it' % (src(n)[:60], src(wrapped[0])[:40]), node=n,
+                            construct='tolerance floored'))
     for t in tests:
         cmp_ = [c for c in ast.walk(t.test) if isinstance(c, ast.Compare)]
         ok = False
